@@ -188,7 +188,7 @@ C06 = dict(
         "c06_open_trailing_partial": _OP("entry followed by a trailing partial-flagged entry: dropped, log continues after the kept entry"),
         "c06_open_only_partial": _OP("only a partial-flagged entry: dropped"),
         "c06_open_finished_batch": _OP("partial, partial, final: a finished atomic batch is kept whole"),
-        "c06_leader_entry": H("thorough", "leader (crc, len<<2|partial<<1|header_bit) of an entry vs reference; validate_leader reads it back", "clear entry: drop bit, start < 253, length < 253 (3 symbolic payload bytes), partial bit, header bit", "4 payload bytes (CRC equivalence over many symbolic bytes is XOR-hard for SAT)", timeout=900, rules=[(r"crc32_bitwise", 30), (r"update_slow", 30)]),
+        "c06_leader_entry": H("thorough", "leader (crc, len<<2|partial<<1|header_bit) of an entry vs reference; validate_leader reads it back", "clear entry: drop bit, start < 253, length < 253 (3 symbolic payload bytes), partial bit, header bit", "4 payload bytes (CRC equivalence over many symbolic bytes is XOR-hard for SAT)", timeout=2400, rules=[(r"crc32_bitwise", 30), (r"update_slow", 30)]),
     },
 )
 PROPS["C06"] = C06
@@ -218,6 +218,8 @@ C02 = dict(
 )
 C02["functions"] += ["hypercore::oplog::Oplog::{flush,insert_header,fresh}", "hypercore::tree::MerkleTree::{truncate,add_node,required_node}"]
 C02["mir"] = True
+C02["functions"] = C02["functions"] + ["MIR of hypercore::core::{new,append_batch,clear,verify_and_apply_proof,flush_bitfield_and_tree_and_oplog} (order of component and storage calls on every path)"]
+C02["outside"] = ["values (which bytes / offsets are written) in core.rs: the MIR obligations abstract data", "reopen from every journal prefix through the public API (DESIGN.md 10.8)", "symbolic payload bytes inside CRC-framed images"]
 PROPS["C02"] = C02
 
 # --------------------------------------------------------------------------------------------- C07
@@ -259,7 +261,7 @@ C12 = dict(
     patterns=["c12_"],
     functions=["hypercore::oplog::Oplog::{flush,insert_header,open,clear}", "hypercore::oplog::header::<impl CompactEncoding for Header|PartialKeypair>", "encode_with_leader"],
     oracle="reference header frame without secret; byte-window comparison with the secret key",
-    outside=["Hypercore::{make_read_only,append} themselves (NotWritable gate, second call returns false, builder argument check): they need the async Hypercore API, which does not fit in CBMC here; the data/tree/bitfield files never receive key material by construction (no code path passes the key pair to them) — argued, not checked",
+    outside=["executing Hypercore::{make_read_only,append} end to end (the gates in core.rs are decided on its MIR control-flow graph, data abstracted); the data/tree/bitfield files never receive key material by construction (no code path passes the key pair to them) — argued, not checked",
              "histories other than: both slots holding the secret, one pending entry"],
     harnesses={
         "c12_flush_clear_traces": H("quick", "flush(header without secret, clear_traces): both slots rewritten zero-padded, bytes == reference, no 32-byte window equals the secret, entries truncated",
@@ -271,6 +273,7 @@ C12 = dict(
     },
 )
 C12["mir"] = True
+C12["functions"] = C12["functions"] + ["MIR of hypercore::core::{new,append_batch,make_read_only,flush_bitfield_and_tree_and_oplog} (key gates on every path)"]
 PROPS["C12"] = C12
 
 # --------------------------------------------------------------------------------------------- C09
